@@ -65,7 +65,9 @@ Model-level references (`ModelImpl.new_ref / change_ref / del_ref`, model.py; PR
 * a reference member that is created where a model-level reference of its name is visible SHADOWS it:
   `on_create_ref` (space.py, own references, derived ones created by `SpaceManager.new_ref` /
   `change_ref`) and `UserSpaceImpl.on_inherit` (a reference derived through a change of bases; /repo
-  5b95fbf) call `clear_attr_referrers(global_refs[name])`: `shadowClears`.
+  5b95fbf) call `clear_attr_referrers(global_refs[name])`: `shadowClears`.  A CELLS derived through a
+  change of bases hides the model-level reference of its name in the same way (the cells branch of
+  `UserSpaceImpl.on_inherit`, /repo cdc3def): `shadowedCells`.
 
 Not in the machine: object-valued references (the reference `S` of `S.x` itself), parametrised spaces
 (`clear_subs_rootitems`), attribute paths to CELLS of other spaces at source level, `_model.x`.
@@ -368,16 +370,29 @@ def shadowed (st st' : SM.St) (derivedOnly : Bool) : List String :=
     (st.mem .refs e.1 e.2).isNone && st.globals.contains e.2 &&
       (!derivedOnly || (match st'.mem .refs e.1 e.2 with | some m => m.derived | none => false)))).map (·.2)
 
+/-- the DERIVED cells members of `st'` that `st` lacks although a model-level reference of their name
+exists: they start to hide it (a cells comes before every reference in `space.namespace`).  Only
+`UserSpaceImpl.on_inherit` can create such a cells - `new_cells` / `rename` to a name the namespace
+already binds are refused (`_can_add`), in the space itself and through its bases - and it exists
+only when the cells was there BEFORE the model-level reference (`ModelImpl.set_attr` looks at no
+member of any space) -/
+def shadowedCells (st st' : SM.St) : List String :=
+  ((cellMembers st').filter (fun e =>
+    (st.mem .cells e.1 e.2).isNone && st.globals.contains e.2 &&
+      (match st'.mem .cells e.1 e.2 with | some m => m.derived | none => false))).map (·.2)
+
 /-- `if name in self.model.global_refs: clear_attr_referrers(global_refs[name])` of `on_create_ref`
 (every `space.x = v`: `new_ref` and `change_ref` both end in `on_create_ref` of the space itself, and of
 the sub spaces that get or re-get the reference) and of `UserSpaceImpl.on_inherit` (a reference derived
 through bases: `add_bases`, `remove_bases`, `del`, `new_space(bases=…)`; the references handed to the
 constructor of a new space are put into the container without it – nothing can have been read through a
-space that did not exist) -/
+space that did not exist); the cells branch of `UserSpaceImpl.on_inherit` has the same call (/repo cdc3def):
+a cells DERIVED through a change of bases hides the model-level reference of its name (`shadowedCells`;
+`_update_derived_space` runs before `_update_derived_refs`: the cells' clears come first) -/
 def shadowClears (t : Tabs) (st st' : SM.St) : SM.Op → List Clear
   | .setRef _ name _ => if st.globals.contains name then globalAttr t st name else []
-  | .newSpace _ _ _ _ => (shadowed st st' true).flatMap (globalAttr t st)
-  | _ => (shadowed st st' false).flatMap (globalAttr t st)
+  | .newSpace _ _ _ _ => (shadowedCells st st' ++ shadowed st st' true).flatMap (globalAttr t st)
+  | _ => (shadowedCells st st' ++ shadowed st st' false).flatMap (globalAttr t st)
 
 /-- the whole clearing of an accepted structural operation -/
 def clearingG (kw : List String) (t : Tabs) (st st' : SM.St) (o : SM.Op) : List Clear :=
